@@ -168,11 +168,24 @@ def t1_agreement(ctx):
     # save_metadata -> _write_tsv_simple(path, name, dict)
     sm = repo.func(M, 'save_metadata')
     c = [x for x in sm.calls() if dotted(x.func) == '_write_tsv_simple']
-    fw = [sm.expand(q.arg(c[0], k_, n_)) if q.arg(c[0], k_, n_) is not None else None for k_, n_ in enumerate(('path', 'field_name', 'data'))] if c else []
+    fw = [sm.expand(q.arg(c[0], k_, n_), rebound=True) if q.arg(c[0], k_, n_) is not None else None for k_, n_ in enumerate(('path', 'field_name', 'data'))] if c else []
     good_fw = bool(c) and len(fw) == 3 and all(x is not None and Pat().m(p_, x) for x, p_ in zip(fw, sm.params[:3]))
     perm_fw = bool(c) and len(fw) == 3 and all(isinstance(x, ast.Name) and x.id in sm.params[:3] for x in fw) and not good_fw
-    ctx.tri(good_fw, perm_fw, 'C10.T1', sm, c[0] if c else 'save_metadata', 'module-level save_metadata forwards (file, field name, mapping) to the two-column writer',
-            'save_metadata does not forward (file, field, mapping) to _write_tsv_simple', 'the call of the two-column writer in save_metadata was not recognised')
+    # a mapping rebuilt entry by entry before it is written must keep every value as it is (a formatted / rounded float does not reload as the saved value)
+    transformed = None
+    if c and len(fw) == 3 and isinstance(fw[2], ast.DictComp) and len(fw[2].generators) == 1:
+        g_ = fw[2].generators[0]
+        if isinstance(g_.target, ast.Tuple) and len(g_.target.elts) == 2 and all(isinstance(x, ast.Name) for x in g_.target.elts) and \
+                Pat().any(['%s.items()' % sm.params[2], 'list(%s.items())' % sm.params[2], 'sorted(%s.items())' % sm.params[2]], g_.iter):
+            kv_, vv_ = g_.target.elts[0].id, g_.target.elts[1].id
+            if Pat().m(vv_, fw[2].value) and Pat().m(kv_, fw[2].key):
+                good_fw = good_fw or all(x is not None and Pat().m(p_, x) for x, p_ in zip(fw[:2], sm.params[:2]))
+            elif any(isinstance(n, ast.Name) and n.id == vv_ for n in ast.walk(fw[2].value)):
+                transformed = fw[2].value
+    perm_fw = perm_fw or transformed is not None
+    ctx.tri(good_fw, perm_fw, 'C10.T1', sm, (transformed if transformed is not None else (c[0] if c else 'save_metadata')), 'module-level save_metadata forwards (file, field name, mapping) to the two-column writer',
+            ('save_metadata rewrites every value as `%s` before it is written: the value that reloads is not the value that was saved' % unparse(transformed)[:70]) if transformed is not None
+            else 'save_metadata does not forward (file, field, mapping) to _write_tsv_simple', 'the call of the two-column writer in save_metadata was not recognised')
     # cluster file priority
     ssc = repo.lookup_method(cls, 'save_spike_clusters')
     lsc = repo.lookup_method(cls, '_load_spike_clusters')
